@@ -484,6 +484,6 @@ func TestC12(t *testing.T) {
 		"declared types come from the proto annotations (fhir_structure_definition_url, fhir_valueset_url, schema position), the R4 hierarchy from a hand-written table", "BackboneElement ancestry of the eight datatypes R4 derives from BackboneElement, and of components nested in datatypes, is not asserted")
 	runProperty(t, r,
 		Stage[c12SysCase]{Name: "system-values", Enum: c12EnumSys, Run: c12RunSys},
-		Stage[c12Case]{Name: "resources", Gen: c12Gen, Run: c12Run, N: pick(150, 1200)},
+		Stage[c12Case]{Name: "resources", Gen: c12Gen, Run: c12Run, N: pick(150, 700)},
 	)
 }
